@@ -48,7 +48,7 @@ theorem rtS16 (h : UInt16) : (qS16 (uS16 (F := SF) h.toInt16)).toUInt16 = canon1
   · subst hb; decide
   · have : ¬ h.toNat = 0x8000 := fun e => hb (UInt16.toNat_inj.mp (by simpa using e))
     simp [hb, this]
-theorem rtS8' (b : UInt8) : (qS8 (uS8 (F := SF) b.toInt8)).toUInt8 = canon8 b := rtS8 b
+theorem rtS8c (b : UInt8) : (qS8 (uS8 (F := SF) b.toInt8)).toUInt8 = canon8 b := rtS8 b
 theorem uS16_canon (h : UInt16) : uS16 (F := SF) (canon16 h).toInt16 = uS16 h.toInt16 := by
   unfold canon16; split
   · next e => subst e; decide +kernel
@@ -89,7 +89,7 @@ theorem packUnorm4x8_unpack (p : UInt32) :
 theorem packSnorm4x8_unpack (p : UInt32) :
     packSnorm4x8 (F := SF) (unpackSnorm4x8_x p) (unpackSnorm4x8_y p) (unpackSnorm4x8_z p) (unpackSnorm4x8_w p)
       = asm4x8 (canon8 (lane4x8_0 p)) (canon8 (lane4x8_1 p)) (canon8 (lane4x8_2 p)) (canon8 (lane4x8_3 p)) := by
-  simp only [packSnorm4x8, unpackSnorm4x8_x, unpackSnorm4x8_y, unpackSnorm4x8_z, unpackSnorm4x8_w, rtS8']
+  simp only [packSnorm4x8, unpackSnorm4x8_x, unpackSnorm4x8_y, unpackSnorm4x8_z, unpackSnorm4x8_w, rtS8c]
 theorem packSnorm4x8_unpack_canonical (p : UInt32)
     (h : lane4x8_0 p ≠ 0x80 ∧ lane4x8_1 p ≠ 0x80 ∧ lane4x8_2 p ≠ 0x80 ∧ lane4x8_3 p ≠ 0x80) :
     packSnorm4x8 (F := SF) (unpackSnorm4x8_x p) (unpackSnorm4x8_y p) (unpackSnorm4x8_z p) (unpackSnorm4x8_w p) = p := by
@@ -118,7 +118,7 @@ theorem snorm8_most_negative :
 theorem packSnorm2x8_unpack (p : UInt16) :
     packSnorm2x8 (F := SF) (unpackSnorm2x8_x p) (unpackSnorm2x8_y p)
       = asm2x8 (canon8 (lane2x8_0 p)) (canon8 (lane2x8_1 p)) := by
-  simp only [packSnorm2x8, unpackSnorm2x8_x, unpackSnorm2x8_y, rtS8']
+  simp only [packSnorm2x8, unpackSnorm2x8_x, unpackSnorm2x8_y, rtS8c]
 theorem packSnorm2x8_unpack_canonical (p : UInt16) (h : lane2x8_0 p ≠ 0x80 ∧ lane2x8_1 p ≠ 0x80) :
     packSnorm2x8 (F := SF) (unpackSnorm2x8_x p) (unpackSnorm2x8_y p) = p := by
   rw [packSnorm2x8_unpack]; simp only [canon8, h.1, h.2, if_false]; exact asm2x8_lanes p
